@@ -827,15 +827,16 @@ static void overwrite_item(cJSON * const root, const cJSON replacement)
         return;
     }
 
-    if (root->string != NULL)
+    /* only release what the item owns: a constant key and the contents of a reference belong to somebody else */
+    if ((root->string != NULL) && !(root->type & cJSON_StringIsConst))
     {
         cJSON_free(root->string);
     }
-    if (root->valuestring != NULL)
+    if ((root->valuestring != NULL) && !(root->type & cJSON_IsReference))
     {
         cJSON_free(root->valuestring);
     }
-    if (root->child != NULL)
+    if ((root->child != NULL) && !(root->type & cJSON_IsReference))
     {
         cJSON_Delete(root->child);
     }
@@ -914,8 +915,12 @@ static int apply_patch(cJSON *object, const cJSON *patch, const cJSON_bool case_
             /* the string "value" isn't needed */
             if (object->string != NULL)
             {
-                cJSON_free(object->string);
+                if (!(object->type & cJSON_StringIsConst))
+                {
+                    cJSON_free(object->string);
+                }
                 object->string = NULL;
+                object->type &= ~cJSON_StringIsConst;
             }
 
             status = 0;
@@ -959,8 +964,12 @@ static int apply_patch(cJSON *object, const cJSON *patch, const cJSON_bool case_
             /* the root has no name */
             if (object->string != NULL)
             {
-                cJSON_free(object->string);
+                if (!(object->type & cJSON_StringIsConst))
+                {
+                    cJSON_free(object->string);
+                }
                 object->string = NULL;
+                object->type &= ~cJSON_StringIsConst;
             }
 
             status = 0;
